@@ -19,7 +19,7 @@ def run(ctx):
     tmpdir = tempfile.mkdtemp(prefix="nirverif-c03-", dir="/var/tmp")
     try:
         for i in range(ctx.n(300)):
-            g = gen.random_graph(rng, meta_p=0.35) if i % 4 else gen.consistent_graph(rng, erase=False)[0]
+            g = gen.random_graph(rng, meta_p=0.35, share_p=0.25) if i % 4 else gen.consistent_graph(rng, erase=False)[0]
             case = {"op": "write_layout", "graph": g}
             ctx.case(case); ctx.count("graphs")
             try:
